@@ -350,7 +350,7 @@ def cancellation_ratio(tl, names):
             if mag == 0:
                 continue
             if net == 0:
-                return None            # the variable cancels completely
+                continue               # the variable cancels completely: not this class (an `=` line then comes back empty, F17)
             worst = max(worst, mag / abs(net))
         return worst
     except ZeroDivisionError:
@@ -372,7 +372,7 @@ def known_classes(text, in_items, names, cases_text, out_items, exact):
     items = list(in_items)
     n = len(names)
     ratios = [cancellation_ratio(U.TextLine(l), names) for l in U.lines_of(text)]
-    if any(r is None or r >= 2 ** 20 for r in ratios):
+    if any(r >= 2 ** 20 for r in ratios):
         return [KF_CANCEL], items       # inside this class only the boundaries are required to be preserved (post_simplify)
     if opposite_pairs(text):
         keys.append(KF_OPPOSITE)
